@@ -171,6 +171,7 @@ def main():
         run.cov["updates_applied"] = summ["updates"]
         run.cov["packets_injected"] = summ["packets"]
         run.cov["managers_started"] = summ["managers"]
+        run.cov["behaviours_not_judged_to_the_end"] = summ.get("inconclusive", 0)
         vlib.require(summ["updates"] > 200, "replay exercised too little")
         for b in behs:
             run.distinct(json.dumps([s["act"] for s in b], sort_keys=True))
